@@ -16,14 +16,14 @@ CLAIMED = {
          "CPython deque/Condition. Blocking wait path is covered under C11, not here. No axioms (all theorems closed).",
     technique="Coq proof by induction over operation histories + model/implementation correspondence by vm_compute"),
  "C04": dict(category="proof", design_ref="7 (C04)",
-    text="22 Coq theorems (all closed) on an executable lock-machine model, for every state and unbounded histories with any number of proxies: "
+    text="24 Coq theorems (all closed) on an executable lock-machine model, for every state and unbounded histories with any number of proxies: "
          "every request gets a reply; owner changes only by acquire-when-free / release-by-owner / force-release; denial has no effect; a call runs iff free or owner, "
          "refused calls execute nothing; is_locked truthful; proxy return values and remembered token agree with the object; automatic tokens pairwise distinct, also across "
-         "same-named contexts. Tie: vm_compute correspondence on an exhaustive (state x action x token) table against the real _RpcThread handlers, exhaustive short and random "
+         "same-named contexts. The token generator takes the per-instance nonce as an input: distinctness and exclusivity of automatic tokens are proved under the explicit hypothesis that distinct same-named instances carry distinct nonces (C04_tokens_same_name: same-named tokens coincide iff nonce and counter coincide; C04_equal_nonces_refuted: the hypothesis is necessary). Tie: the hypothesis is checked on the real QMI_Context constructor - pairs and triples of same-named contexts constructed under an IDENTICAL ambient state (global PRNG seed/state, all clocks, pid, thread, id()/hash(), construction order, alone and combined; stub drive and real TCP contexts), then lock and call through their own proxies: the second lock must be refused and the tokens must differ; vm_compute correspondence on an exhaustive (state x action x token) table against the real _RpcThread handlers, exhaustive short and random "
          "histories through real QMI_RpcProxy/QMI_RpcFuture, and real QMI_Contexts over loop-back TCP; independent oracle.",
-    note="Trusted: Coq kernel+vm_compute; hand-written model tied by differential runs (generator-bounded); harness stubs; distinct context instances draw distinct 64-bit nonces. "
+    note="Trusted: Coq kernel+vm_compute; hand-written model tied by differential runs (generator-bounded); harness stubs; nonces_ok is assumed, not proved: the nonce is drawn by the constructor from the operating system's entropy (os.urandom, 64 bits), the one source the check never equalises (os.urandom/getrandom, secrets, SystemRandom, uuid4); a genuine 2^-64 coincidence or a defective OS source is out of reach. "
          "Sequential requests only (concurrency: C03). Five defects found by this check were repaired by fix: commits (see known_findings.json).",
-    technique="Coq case analysis + induction over operation histories; model/implementation correspondence by vm_compute"),
+    technique="Coq case analysis + induction over operation histories; model/implementation correspondence by vm_compute; nonce-hypothesis check under equalised ambient state"),
  "C06": dict(category="proof", design_ref="7 (C06)",
     text="14 Coq theorems (all closed, unbounded) on an executable model of _PeerTcpConnection framing/handshake/pending handling: segmentation invariance, exact in-order delivery, "
          "containment of bad frames / handshake violations / forged addresses, exactly one error reply per pending request on close, no request left unanswered. Tie: the real class "
@@ -101,17 +101,17 @@ CLAIMED = {
          "C15_usbtmc_in_limited assumes the device never exceeds the requested TransferSize (the _served form does not).",
     technique="executable Gallina codecs; induction, round-trip, soundness and simulation proofs; finite CRC sweeps; translator-fed layout theorem; differential testing"),
  "C12": dict(category="proof", design_ref="7 (C12)",
-    text="15 Coq theorems (all closed); 11 over ALL finite operation-and-fault histories (fault inputs carry their exception class: Exception-like / BaseException-only) of an executable model of the context and singleton lifecycle (exception monad with catch exactly where "
+    text="18 Coq theorems (all closed); 11 over ALL finite operation-and-fault histories (fault inputs carry their exception class: Exception-like / BaseException-only) of an executable model of the context and singleton lifecycle (exception monad with catch exactly where "
          "the code has try/except-log): table invariant (unique names, no reservation left, handlers = live names, one worker thread per live object, nothing released twice), duplicate "
          "refused without change, rollback after a failed constructor, remove, stop reclaims everything whatever stop handlers or release steps raise, failed start leaves nothing "
          "behind at QMI_Context and qmi.start level (proved for the repaired behaviour, refuted by witness for the pinned tree); 4 for an operation of another thread racing with stop() "
          "(remove||stop, make||stop): proved for every interleaving of an atomic-region model on 64 listed finite instances (<= 3 objects) by closed-reachable-set reflection, refuted for the "
-         "pinned tree's make||stop and for stop() dropping reservations. Tie: real QMI_Context / qmi.start in a forked child "
+         "pinned tree's make||stop and for stop() dropping reservations; 3 for calls through proxies racing with remove/stop (caller / stopper / worker LTS, 1-2 callers, by reflection): every request accepted by handle_message is executed or answered with an error reply before the worker ends, every call gets exactly one outcome, no deadlock (C12_call_vs_stop, C12_accepted_request_answered); the variant with the queue hand-over outside the region of the running check is refuted by a reachable stuck state (C12_handover_outside_region_refuted). Tie: real QMI_Context / qmi.start in a forked child "
          "under the deterministic scheduler with the fake network and injected constructor/release/stop-handler/bind/peer faults; after every operation exception class, live QMI "
          "threads, handler and object maps, sockets, singleton, release and stop-handler logs are compared step by step with the model (1.6k history-schedule pairs quick, 26k thorough).",
     note="Trusted: Coq kernel+vm_compute; hand-transcribed model; dsched fake loop/network; harness stubs; the concurrent clause is weaker than the sequential ones (finite instances, one racing operation, sampled schedules with line-level yields + DFS with <= 2 preemptions; "
-         "make||make, remove||remove and races with start are not covered). The failed-start defect, the make||stop registration race and stop() aborted by a BaseException-only stop handler (singleton stuck, threads and ports leaked) found here were repaired by fix: commits.",
-    technique="inductive invariant over histories with an exception monad + finite LTS reflection for the concurrent clause + observation/trace correspondence under dsched"),
+         "make||make, remove||remove and races with start are not covered); the call model is proved for remove and stop with <= 2 callers (3 sampled), its trace acceptance covers local callers (peer-context callers are judged by the oracle alone) and requires the hand-over (running check + push) to be one region under _stop_lock. The failed-start defect, the make||stop registration race and stop() aborted by a BaseException-only stop handler (singleton stuck, threads and ports leaked) found here were repaired by fix: commits.",
+    technique="inductive invariant over histories with an exception monad + finite LTS reflection for the concurrent clauses (operation||stop, caller||remove/stop) + observation/trace correspondence of lock-region-level effects under dsched with line-level switch points"),
  "C19": dict(category="proof", design_ref="7 (C19)",
     text="8 generic Coq theorems (all closed): the abstract post analyser of the open/close effect language is sound AND complete for every fault placement; if the boolean conditions "
          "ok_open/ok_close hold then for every sequence of open/close/is_open calls and every fault placement is_open() = link held, a failing open leaves (closed, released) or "
@@ -191,7 +191,7 @@ CLAIMED = {
          "operations run re-entrantly at every lock-free point of a running publish), compared label by label with the model; real QMI_Context thread schedules under dsched; independent "
          "event-log oracle (each receiver queue = projection of the global publish/subscribe log).",
     note="Trusted: Coq kernel+vm_compute; hand model; H2 harness network and dsched; fresh request ids; atomic lock regions; honest peers. Half of the real-context thread schedules add line-level switch points inside five SignalManager "
-         "methods. The H2 stub router keeps the message OBJECTS until the handler invocation is over and transmits them as the socket thread would (re-use or mutation of a message after hand-off is detected); fixed buckets with 2-3 subscriber contexts on one signal and with prefix-named signals; 300 schedules of one publisher context fanning out to 2-3 subscriber contexts. Queue overflow (C09) and pickling are outside.",
+         "methods. The H2 stub router keeps the message OBJECTS until the handler invocation is over and transmits them as the socket thread would (re-use or mutation of a message after hand-off is detected); fixed buckets with 2-3 subscriber contexts on one signal and with prefix-named signals; 300 schedules of one publisher context fanning out to 2-3 subscriber contexts. Object removal is one model step: hypothesis = the subscription clean-up runs while the name is still reserved (no same-named object can be created between the release of the name and the clean-up of the previous incarnation); it is stated in the model and checked by Corr.lifecycle_ok on the recorded object-map events of every schedule of the remove-and-re-create family (240 schedules of real contexts with a slow release and line-level switch points in remove_rpc_object / make_rpc_object / handle_object_removed, exactly-once in-order oracle for the receivers of the re-created publisher). Queue overflow (C09) and pickling are outside.",
     technique="inductive invariants over an executable transition system; H2 message simulation + deterministic scheduler"),
  "C08": dict(category="proof", design_ref="7 (C08)",
     text="14 Coq theorems (all closed). Main theorem C08_quiescent, proved in full for two complete contexts and every finite history (subscribe, unsubscribe incl. re-subscribe while the "
@@ -202,7 +202,7 @@ CLAIMED = {
          "either end; cleanup after object removal and after peer loss at both ends; every blocked subscribe is accounted for through every step and returns once channels are empty. "
          "Tie: as C07 (about 2400 cases per run, probe publications at quiescent points, 900 schedules of blocked subscribers while the peer disconnects / stops / removes the publisher).",
     note="Trusted: as C07. Proof covers two contexts and star topologies at handler granularity; a context subscribed to several publisher contexts at once is covered by correspondence and oracle only; a reconnect is assumed only after both "
-         "ends have closed. Peer loss with several subscriber contexts on one signal is covered by a fixed fan-out bucket. One defect below handler granularity (removal notice overtaking the subscribe reply: stale subscription) was found by the thread-level oracle and repaired by a fix: commit.",
+         "ends have closed. Peer loss with several subscriber contexts on one signal is covered by a fixed fan-out bucket. Same removal hypothesis and tie as C07 (160 schedules of the remove-and-re-create family); a subscribe that joins a local subscription while the removal notice of the previous incarnation of a same-named publisher is still in flight is ended by that notice (modelled; re-creation of a name is outside the property's quantifier). One defect below handler granularity (removal notice overtaking the subscribe reply: stale subscription) was found by the thread-level oracle and repaired by a fix: commit.",
     technique="per-signal protocol invariant over a two-node transition system; H2 simulation + deterministic scheduler"),
  "C17": dict(category="proof", design_ref="7 (C17)",
     text="PARTIAL. 14 Coq theorems (all closed; all inputs / histories / interleavings) on an executable model of the parts of the property that are logic: (a) text-header attribute codec "
